@@ -601,6 +601,15 @@ fn main() {
     let flat: Vec<&Elem> = elems.iter().flatten().collect();
     ctx.set("i1_intervals", json!(elems.len()));
     ctx.set("i1_values_with_hints", json!(flat.len()));
+    // a few cases for the evidence file, picked sequentially (independent of thread scheduling)
+    for k in 0..=1000u64 {
+        let m = flat.len() as u64;
+        let (a, b) = (flat[((k * 37) % m) as usize], flat[((k * 101) % m) as usize]);
+        ctx.sample(|| match k % 2 {
+            0 => serde_json::to_value(Case::Bound { op: CONDS[(k % 5) as usize].name().into(), a: a.iv.clone(), c: ((k * 7) % 256) as u8 as i8 as i64 }).unwrap(),
+            _ => serde_json::to_value(Case::Intersect { a: a.iv.clone(), b: b.iv.clone() }).unwrap(),
+        });
+    }
     {
         let flat = &flat;
         par_fold(
@@ -613,7 +622,6 @@ fn main() {
                 for cond in CONDS {
                     for c in 0..=255u8 {
                         acc.states += 1;
-                        ctx.sample(|| serde_json::to_value(Case::Bound { op: cond.name().into(), a: e.iv.clone(), c: c as i8 as i64 }).unwrap());
                         bound1(ctx, acc, ct, cond, &e.iv, &e.dom, &e.gamma, c);
                     }
                 }
@@ -635,7 +643,6 @@ fn main() {
                 for ea in &elems[i] {
                     for eb in &elems[j] {
                         acc.states += 1;
-                        ctx.sample(|| serde_json::to_value(Case::Intersect { a: ea.iv.clone(), b: eb.iv.clone() }).unwrap());
                         intersect1(ctx, acc, &ea.iv, &ea.dom, &ea.gamma, &eb.iv, &eb.dom, &eb.gamma);
                     }
                 }
